@@ -145,6 +145,11 @@ class ParsersWorld:
                               "file_path": ro.choice([None, "some/dir/tables.sql", "a.b.sql"])}
                 if op["dump"]["file_path"] is None:
                     del op["dump"]["file_path"]
+            elif r < 0.36:
+                # dump NOT requested although dump_path / file_path are given: nothing may be written
+                op["nodump_args"] = {"dump_path": ro.choice(["schemas", "out/d", "."])}
+                if ro.random() < 0.7:
+                    op["nodump_args"]["file_path"] = ro.choice(["some/dir/tables.sql", "t.sql"])
             if swarm["faults"]:
                 f = rf.random()
                 if f < 0.22:
@@ -171,7 +176,7 @@ class ParsersWorld:
                                            "dump_fault_fired": 0, "reruns": 0, "mode_changes": 0,
                                            "after_fault_checks": 0, "stmts": 0, "cancel_in_multi": 0,
                                            "objects": 0, "exc_outcomes": 0, "refs_other_hashseed": 0,
-                                           "global_state_changed": 0, "victims_run": 0, "reflag_objects": 0, "followup_objects": 0,
+                                           "global_state_changed": 0, "victims_run": 0, "nodump_with_paths": 0, "reflag_objects": 0, "followup_objects": 0,
                                            "marathon_runs": 1 if (trace.get("swarm") or {}).get("marathon") else 0},
               "kinds": []}
         chooser = sched.ListChooser([])
@@ -289,6 +294,12 @@ class ParsersWorld:
                     kw.update(op["dump"])
                     ref_kw = dict(kw)
                     entitled_files = True
+                elif "nodump_args" in op:
+                    kw.update(op["nodump_args"])
+                    if op["nodump_args"].get("file_path"):
+                        kw["dump"] = False
+                    ref_kw = dict(kw)
+                    stats["nodump_with_paths"] += 1
                 if prev_kw is not None:
                     stats["reruns"] += 1
                     if prev_kw.get("output_mode", "sql") != op["kw"].get("output_mode", "sql"):
